@@ -20,6 +20,9 @@ func runStorm(t *testing.T, r *vc.Rand, id string, col *vc.Collector, prop strin
 	col.Eval(prop, 1)
 	server := r.Chance(3, 4)
 	paired := r.Chance(1, 3)
+	if r.Chance(1, 2) {
+		paired = false // pending-listen needs an untrusted peer
+	}
 	alpha := []simkit.Input{
 		simkit.HelloReady(), simkit.HelloPending(), simkit.Hello(`"ready"`, "30000", ""), simkit.Hello(`"ready"`, "30001", ""), simkit.Hello(`"ready"`, "31000", ""),
 		simkit.Hello(`"pending"`, "30000", ""), simkit.Hello(`"pending"`, "30005", ""), simkit.Hello(`"pending"`, "", "true"), simkit.Hello(`"ready"`, "60000", ""),
@@ -33,6 +36,16 @@ func runStorm(t *testing.T, r *vc.Rand, id string, col *vc.Collector, prop strin
 	for i := 0; i < n; i++ {
 		seq = append(seq, vc.Pick(r, alpha))
 	}
+	targeted := r.Chance(1, 2)
+	if targeted {
+		// a waiting value that arms a timer of 0..100 ms, directly followed by a message that ends or moves the
+		// hello phase: the timer fires while that message is being handled
+		w := vc.Pick(r, []string{"30000", "30000", "30001", "30002", "30005", "30010", "30050", "30100"})
+		first := vc.Pick(r, []simkit.Input{simkit.Hello(`"pending"`, w, ""), simkit.Hello(`"ready"`, w, "")})
+		second := vc.Pick(r, []simkit.Input{simkit.Hello(`"aborted"`, "", ""), simkit.Hello(`"aborted"`, "", ""), simkit.HelloReady(), simkit.HelloPending(), simkit.Close(`"announce"`, ""), simkit.Hello(`"pending"`, "", "true")})
+		seq = append([]simkit.Input{first, second}, seq[:min(len(seq), 4)]...)
+		server = true
+	}
 	apiOps := make([]int, r.Range(3, 16))
 	for i := range apiOps {
 		apiOps[i] = r.Intn(9)
@@ -41,6 +54,20 @@ func runStorm(t *testing.T, r *vc.Rand, id string, col *vc.Collector, prop strin
 	rgap := make([]time.Duration, len(seq))
 	for i := range rgap {
 		rgap[i] = vc.Pick(r, gaps)
+	}
+	if !targeted && r.Chance(1, 3) && len(seq) >= 2 {
+		// a message with a waiting value handled exactly when the 60 s hello timer (or the 10 s init timer) fires,
+		// the application no longer willing to wait
+		seq[0] = vc.Pick(r, []simkit.Input{simkit.HelloPending(), simkit.Hello(`"pending"`, "60000", ""), simkit.Hello(`"ready"`, "60000", "")})
+		seq[1] = vc.Pick(r, []simkit.Input{simkit.Hello(`"pending"`, "60000", ""), simkit.Hello(`"ready"`, "45000", ""), simkit.Hello(`"pending"`, "31000", ""), simkit.HelloReady()})
+		rgap[0] = vc.Pick(r, []time.Duration{60 * time.Second, 60 * time.Second, 30 * time.Second, 10 * time.Second, 66 * time.Second})
+		server, paired = true, false
+		if len(apiOps) > 0 {
+			apiOps[0] = 3
+		}
+	}
+	if targeted {
+		rgap[0] = vc.Pick(r, []time.Duration{0, 0, 0, time.Millisecond, 2 * time.Millisecond, 5 * time.Millisecond, 10 * time.Millisecond, 50 * time.Millisecond, 100 * time.Millisecond})
 	}
 	agap := make([]time.Duration, len(apiOps))
 	for i := range agap {
